@@ -205,7 +205,7 @@ func runCase(run *evid.Run, idx int) *caseResult {
 	batch := []int{1, 2, 3, 100}[r.Intn(4)]
 	faultMode := "nofault"
 	if !c.stand && idx%3 == 1 {
-		faultMode = []string{"put-503", "batch-429", "exhaust+batch-429", "exhaust+batch-429", "put-reset", "mixed", "lost-put+verify"}[(faultOrdinal(idx)+int(run.Seed%7+7))%7]
+		faultMode = []string{"put-503", "batch-429", "exhaust+batch-429", "exhaust+batch-429", "put-reset", "mixed", "lost-put+verify", "expired-upload-action"}[(faultOrdinal(idx)+int(run.Seed%8+8))%8]
 	}
 	hopts := histgen.Options{Commits: 8 + r.Intn(8), Merges: true, Tags: true, TrackToggles: true, Symlinks: true, ExecBits: true, EmptyFiles: true}
 	if faultMode == "exhaust+batch-429" {
@@ -318,6 +318,24 @@ func runCase(run *evid.Run, idx int) *caseResult {
 					if batches%3 == 2 {
 						run.Count("faults_batch_429", 1)
 						return &fakelfs.Fault{Status: 429}
+					}
+				case "expired-upload-action":
+					// the first answer about some objects carries an upload action that has already expired
+					// (server clock behind, stale answer): the client has to ask again, not skip the object
+					exp := map[string]bool{}
+					if objs, ok := rq.JSON["objects"].([]any); ok {
+						for _, x := range objs {
+							if o, ok := x.(map[string]any); ok {
+								if oid, ok := o["oid"].(string); ok && !hit429[oid] && oid[0] < 'a' {
+									hit429[oid] = true
+									exp[oid] = true
+								}
+							}
+						}
+					}
+					if len(exp) > 0 {
+						run.Count("faults_expired_upload_actions", int64(len(exp)))
+						return &fakelfs.Fault{ExpiredAct: exp}
 					}
 				case "exhaust+batch-429":
 					// the batch call that re-submits an exhausted object together with other objects fails (once per object)
@@ -630,7 +648,7 @@ func sortStrings(s []string) []string {
 func main() {
 	run := evid.New("C03", "exploration")
 	defer sbx.RemoveBase()
-	run.Rule = "seeded histories (histgen: branches, merges incl. octopus, orphan branches, tags, renames/copies/deletes, files moving in and out of LFS tracking, nested .gitattributes, symlinks, exec bits, empty files) pushed by seeded plans over {git push <branch>, --all, --tags, new commits, amended+forced, deleted refs, git lfs push <ref>, git lfs push --all, a second clone moving the remote branch, missing local object with/without lfs.allowincompletepush} x batch size {1,2,3,100} x {http fake server, file:// standalone remote} x transient server faults in one http case out of three {PUT 503, PUT connection reset, batch 429, mixed, uploads answered 200 but lost while the verify action truthfully answers 404, and the schedule 'an object uses up its retry budget, then meets objects not yet sent in a batch call that fails' with a bulk commit and a slow batch endpoint}; family b re-points the remote to an empty server. Oracle: brute-force enumeration (git rev-list/ls-tree/cat-file with filters disabled + ptrspec) of every pointer in every commit reachable from the remote's refs vs the server store. Class = (transport, family, batch size, set of step kinds)."
+	run.Rule = "seeded histories (histgen: branches, merges incl. octopus, orphan branches, tags, renames/copies/deletes, files moving in and out of LFS tracking, nested .gitattributes, symlinks, exec bits, empty files) pushed by seeded plans over {git push <branch>, --all, --tags, new commits, amended+forced, deleted refs, git lfs push <ref>, git lfs push --all, a second clone moving the remote branch, missing local object with/without lfs.allowincompletepush} x batch size {1,2,3,100} x {http fake server, file:// standalone remote} x transient server faults in one http case out of three {PUT 503, PUT connection reset, batch 429, mixed, uploads answered 200 but lost while the verify action truthfully answers 404, upload actions that are already expired in the first answer, and the schedule 'an object uses up its retry budget, then meets objects not yet sent in a batch call that fails' with a bulk commit and a slow batch endpoint}; family b re-points the remote to an empty server. Oracle: brute-force enumeration (git rev-list/ls-tree/cat-file with filters disabled + ptrspec) of every pointer in every commit reachable from the remote's refs vs the server store. Class = (transport, family, batch size, set of step kinds)."
 	run.Assumptions = []string{"family a: the fake server never loses objects and remote-tracking refs only change through push/fetch against the same server, so 'reachable from remote refs => on server' is an invariant every correct implementation maintains", "pointers are the canonical non-empty pointers found in any tree (the generator creates no look-alikes)", "git 2.39.5"}
 	n := run.N(40, 400)
 	workers := runtime.NumCPU()
